@@ -1,4 +1,5 @@
 import json
+import os
 from typing import Union
 
 from leaspy import __version__
@@ -25,8 +26,8 @@ class ModelSettings:
 
     Parameters
     ----------
-    path_to_model_settings_or_dict : :obj:`dict` or :obj:`str`
-        * If a str: path to a json file containing model settings
+    path_to_model_settings_or_dict : :obj:`dict` or :obj:`str` or :class:`os.PathLike`
+        * If a str (or a path object): path to a json file containing model settings
         * If a dict: content of model settings
 
     Raises
@@ -35,10 +36,11 @@ class ModelSettings:
         If the provided settings are not valid or if the file cannot be read.
     """
 
-    def __init__(self, path_to_model_settings_or_dict: Union[str, dict]):
+    def __init__(self, path_to_model_settings_or_dict: Union[str, os.PathLike, dict]):
         if isinstance(path_to_model_settings_or_dict, dict):
             settings = path_to_model_settings_or_dict
-        elif isinstance(path_to_model_settings_or_dict, str):
+        elif isinstance(path_to_model_settings_or_dict, (str, os.PathLike)):
+            # `BaseModel.load` documents `str` or `Path`
             with open(path_to_model_settings_or_dict) as fp:
                 settings = json.load(fp)
         else:
